@@ -658,7 +658,7 @@ func TestExplicit(t *testing.T) {
 		Property: "C07", Check: "explicit_buckets",
 		Rule: "int64/float64 histogram with 0..12 strictly increasing finite boundaries (view or instrument option), delta or cumulative reader, 0..200 finite measurements (bounds +-1 ulp, powers of two, subnormals, MaxFloat64, +-0, negatives, exact k*2^e numbers) with 1..4 interleaved collections, 1..2 attribute sets; " +
 			"non-trivial = a measurement equals or is 1 ulp away from a boundary, or one data point populates >= 2 buckets; distinct = distinct case encodings",
-		Quick: 15000, Thorough: 200000,
+		Quick: 15000, Thorough: 150000,
 		Gen: genCase(false), Run: run,
 	})
 }
@@ -666,9 +666,9 @@ func TestExplicit(t *testing.T) {
 func TestExpo(t *testing.T) {
 	vk.Run(t, vk.Spec[Case]{
 		Property: "C07", Check: "expo_buckets",
-		Rule: "int64/float64 histogram with a base-2 exponential view (MaxSize 1..160 biased to {1,2,3,4,20,160}, MaxScale -10..20), delta or cumulative reader, 0..200 finite measurements (powers of two +-0..4 ulps, 320-bit bucket boundaries of the reachable scales +-0..4 ulps, subnormals, MaxFloat64, +-0, negatives, clustered then far-apart values, exact k*2^e numbers) with 1..4 interleaved collections, 1..2 attribute sets; " +
+		Rule: "int64/float64 histogram with a base-2 exponential view (MaxSize 1..160 biased to {1,2,3,4,20,160}, MaxScale -10..20), delta or cumulative reader, 0..200 finite measurements (powers of two and 320-bit bucket boundaries of the reachable scales +-0..4 ulps, occasionally up to +-40, subnormals, MaxFloat64, +-0, negatives, clustered then far-apart values, exact k*2^e numbers) with 1..4 interleaved collections, 1..2 attribute sets; " +
 			"non-trivial = a data point is reported below MaxScale (rescaled), or a value landed left of the window held so far, or a value lies within 4 ulps of a bucket boundary of the reported scale; distinct = distinct case encodings",
-		Quick: 25000, Thorough: 400000,
+		Quick: 25000, Thorough: 300000,
 		Gen: genCase(true), Run: run,
 		Known: map[string]func(Case, vk.Violation) bool{
 			// positive scales: float64 logarithm, values within 4 ulps of an
